@@ -82,6 +82,16 @@ func (s *Sim) ParQuery(p *ParF, tgt int) ([]ecs.Relation, []ecs.Entity, int) {
 	return qrels, exp, label
 }
 
+// ParDeadQuery returns relation arguments that name a removed entity as target of the filter's
+// partition component (nil if the filter is not typed, has no such component, or nothing was removed yet).
+func (s *Sim) ParDeadQuery(p *ParF, k int) []ecs.Relation {
+	t, d := p.PartitionType(), s.M.PickDead(k)
+	if t < 0 || d == nil || !p.F.CanRegister() {
+		return nil
+	}
+	return append([]ecs.Relation{}, s.relations(p.Spec.Required(), map[int]int{t: d.Label}, []int{t}, RSIdx)...)
+}
+
 // CloseAllQueries finishes all queries held open by engine-A ops.
 func (s *Sim) CloseAllQueries() {
 	for _, q := range s.queries {
